@@ -94,6 +94,7 @@ def run(ctx):
                 undecided.append("%s catch-all body %s" % (arm_id, body))
                 discharged += 1  # undecided, not a violation
             continue
+        k9.HELPERS = {f_["name"]: f_ for f_ in syn.fns if f_["file"] == sf["file"] and not f_.get("impl_self")}
         for label, lhs, c in k9.instances(arm):
             full = "%s|%s" % (arm_id, label)
             if lhs is None:
